@@ -45,6 +45,22 @@ CLAIMED = {
             "TLC aborts every stopped state of error-heavy programs and checks the clean-state invariant; 216 real abort situations are probed (names, locals of aborted frames, :resume :stack :fstmts :locals) and must answer exactly like a fresh session with the same definitions and variables",
             ":fvalues is excluded from the probes (legitimate difference); the failing call is a named function so top-level variables are unaffected by the aborted evaluation",
             "DESIGN.md §6 C10"),
+    "C11": (MC, "TLC: compositional sequencing of Ref.tla at every split point (MC_Split) and Ref's value of the last input; real sessions fed piecewise vs at once",
+            "error-free generated programs are sent to a real session one definition / statement per request and as one request; the last answered value and the printed output must agree with each other and with the reference semantics",
+            "each top-level name defined once; functions and the enum are separate inputs",
+            "DESIGN.md §6 C11"),
+    "C24": (MC, "TLC enumerates the forbidden-effect call matrix from Builtins.tla (SandboxExpect); each call x 6 call positions runs in playground-run / sandboxed-test with canaries",
+            "every fs / proc / stdin built-in, well-formed and ill-formed, at top level, in a function, in a closure passed to map, in a sandboxed test, via alias and via unqualified import: directory snapshot unchanged, canary executable not run, stdin line not consumed, outcome = sandbox error (argument error allowed for ill-formed calls)",
+            "effect classes are those of Builtins.tla; env / time / random built-ins are outside the property",
+            "DESIGN.md §6 C24"),
+    "C25": (MC, "TLC: Machine.tla with TickLimit/StackLimit: TicksBounded invariant and Termination liveness on diverging programs (MC_Limits); real sandboxed runs of diverging / resource-hungry programs under a wall clock",
+            "TLC proves on the bounded family that every behaviour under the limits stops; 20 diverging or resource-hungry programs x {playground-run, sandboxed-test} must end by themselves with value / error / limit error",
+            "wall-clock 60 s and 4 GiB address space per run; two families are recorded known findings (deep nesting, unbounded step cost)",
+            "DESIGN.md §6 C25, §8"),
+    "C26": (MC, "TLC: TestRunner.tla (VerdictIndependent, SummaryHonest) exhaustively over files of <=3/4 tests x 7 body kinds x filters; each configuration replayed with `garden test`",
+            "every configuration's failed-test set, summary counts and exit status from the real runner must equal the model's; running a test alone (-n) is one of the filters",
+            "selection is by name substring; body kinds are fixed templates (including failures deep in callee frames with half-built values)",
+            "DESIGN.md §6 C26"),
     "C12": (MC, "TLC: Display.tla StringRoundTrip over all strings of a 9-symbol alphabet (MC_Display) and Disp evaluated on the value pool; both the printed form and its re-reading checked on the interpreter",
             "for every pool value the interpreter's string_repr must equal the specified printed form, and that text must parse, re-print identically and compare equal",
             "equality-only failures are attributed to C13; arbitrary floats are not specified",
